@@ -462,7 +462,8 @@ def sig_of(kind, detail, case):
     tag = w[3].lstrip("#") if len(w) > 3 else ""
     clause = detail.split(" ")[1] if kind == "spec" and len(detail.split(" ")) > 1 else ""
     m = __import__("re").search(r"@(\S+)", detail)
-    return {"kind": kind, "clause": clause, "top": top, "site": m.group(1) if m else "", "tag": tag.split(":")[0]}
+    return {"kind": kind, "clause": clause, "top": top, "site": m.group(1) if m else "",
+            "tag": tag if tag.startswith("corpus") else tag.split(":")[0]}
 
 
 def build_ops(chk, exe, rng):
@@ -534,7 +535,8 @@ def run(chk):
     CH = 60000
     for g, gops in groups.items():
         for i in range(0, len(gops), CH):
-            stats += corr.correspond(chk, AREA, exe, gops[i:i + CH], case_start=CASE_START, classify=classify, sig_of=sig_of)
+            stats += corr.correspond(chk, AREA, exe, gops[i:i + CH], case_start=CASE_START, classify=classify, sig_of=sig_of,
+                                     max_reports=(16 if g == "corpus" else 6))
     # distribution of what the specification demanded (evidence only)
     sample = ops if chk.tier == "quick" else ops[:200000]
     impl, _ = core.run_harness_lines(exe, [], sample, CASE_START)
